@@ -588,11 +588,25 @@ static void check_blocked_kernel_threads(void) {
     for (p = 0; p < VP_NPOINTS; ++p) hits += __atomic_load_n(&g_thr[i].hits[p], __ATOMIC_RELAXED);
     char path[64], buf[256];
     snprintf(path, sizeof(path), "/proc/self/task/%ld/syscall", lt);
-    // raw system calls: the library under test interposes open/read/close and this is not one of its threads
-    const int f = (int)syscall(SYS_openat, AT_FDCWD, path, O_RDONLY | O_CLOEXEC);
-    if (f < 0) continue;
-    const ssize_t r = (ssize_t)syscall(SYS_read, f, buf, sizeof(buf) - 1);
-    syscall(SYS_close, f);
+    // raw system calls: the library under test interposes open/read/close and this is not one of its threads. One descriptor per
+    // thread, opened once and parked at a high number: scenarios that probe "closed" descriptor numbers must not find them reused.
+    static int pfd[VP_MAX_THREADS];
+    if (pfd[i] == 0) {
+      const int f0 = (int)syscall(SYS_openat, AT_FDCWD, path, O_RDONLY | O_CLOEXEC);
+      if (f0 < 0) {
+        pfd[i] = -1;
+      } else {
+        const int hi = (int)syscall(SYS_fcntl, f0, F_DUPFD_CLOEXEC, 600);
+        if (hi >= 0) {
+          syscall(SYS_close, f0);
+          pfd[i] = hi;
+        } else {
+          pfd[i] = f0;
+        }
+      }
+    }
+    if (pfd[i] < 0) continue;
+    const ssize_t r = (ssize_t)syscall(SYS_pread64, pfd[i], buf, sizeof(buf) - 1, 0L);
     if (r <= 0) continue;
     buf[r] = 0;
     long nr = -1;
